@@ -14,6 +14,7 @@ import Sipsp.Proofs.SafeRest
 import Sipsp.Proofs.SigSpec
 import Sipsp.Proofs.CapacityExtra
 import Sipsp.Proofs.FieldsLo
+import Sipsp.Proofs.ResetLists
 
 namespace Sipsp
 
@@ -443,20 +444,6 @@ theorem ScMsg_reset (m : PSIPMsg) : ScMsg m.reset := by
   show ScHdrOK (m.hl.hdrs.map (fun _ => ({} : Hdr)))[0]!
   rw [hrep 0 hj]; exact ScHdrOK_new
 
-/-- the life of a message object: Init (of anything), Reset (of anything), ParseSIPMsg calls with any buffer, offset
-    and flags, whatever their verdict (complete, suspended, failed, called again after an error, …) -/
-inductive ScReach : PSIPMsg → Prop
-  | init (m0 : PSIPMsg) (len kh kc : Nat) (hdrs cts : Option Unit) :
-      ScReach (m0.init len (hdrs.map fun _ => Array.replicate kh {}) (cts.map fun _ => Array.replicate kc {}))
-  | reset (m : PSIPMsg) : ScReach m.reset
-  | parse {m : PSIPMsg} (b : Buf) (o flags : Nat) : ScReach m → ScReach (parseSIPMsg b o m flags).2.2
-
-theorem ScReach.inv {m : PSIPMsg} (h : ScReach m) : ScMsg m := by
-  induction h with
-  | init m0 len kh kc hdrs cts => exact ScMsg_init m0 len kh kc hdrs cts
-  | reset m => exact ScMsg_reset m
-  | parse b o flags _ ih => exact (sc_parseSIPMsg b o _ flags ih).1
-
 /-- a chain of resumed calls keeps the invariant; if it ends with OK the unfilled header slots have type 0 -/
 theorem sc_resumeRun (flags : Nat) (o : Nat) (m : PSIPMsg) (l : List Buf) (H : ScMsg m) :
     ScMsg (resumeRun (fun b o m => parseSIPMsg b o m flags) o m l).2.2 ∧
@@ -491,14 +478,6 @@ theorem sc_getMsgSig_safe (b : Buf) (o : Nat) (m : PSIPMsg) (flags : Nat) (hfit 
   intro k h1 h2 hv
   rw [hD' k h1 h2] at hv
   cases hv
-
-/-- **after ANY history** of Init / Reset / ParseSIPMsg calls (complete, suspended, failed) that left the object
-    legitimate for the next call (`msgOK2`, `MsgSafe`: e.g. a resumed call on an extension of the same buffer, or
-    the first call after Init / Reset), a successful ParseSIPMsg is followed by a panic-free GetMsgSig -/
-theorem sc_getMsgSig_safe_history (b : Buf) (o : Nat) (m : PSIPMsg) (flags : Nat) (hfit : b.size ≤ 65535)
-    (hR : ScReach m) (hok : msgOK2 b o m) (H : MsgSafe b o m) {o' : Nat} {m' : PSIPMsg}
-    (hr : parseSIPMsg b o m flags = (o', .ok, m')) : (getMsgSig m' b).2.2 = false :=
-  sc_getMsgSig_safe b o m flags hfit hR.inv hok H hr
 
 /-- the first call after Init: the two legitimacy hypotheses hold -/
 theorem sc_getMsgSig_safe_init (b : Buf) (o : Nat) (ho : o ≤ b.size) (m0 : PSIPMsg) (len kh kc : Nat)
@@ -923,5 +902,442 @@ theorem sc_sig_capacity (flags : Nat) (o : Nat) (m0 m0' : PSIPMsg) (len kh1 kc1 
   refine ⟨e1.symm, hok2, hn, hs1, hs2, fun f1 f2 b => ?_, fun f1 f2 b => ?_⟩
   · exact sc_sig_fit r1.2.2 r2.2.2 b hD hd1' hd2' (by rw [hs1]; exact f1) (by rw [hs2, hn]; exact f2)
   · exact sc_sig_small r1.2.2 r2.2.2 b hD (by rw [hs1]; exact f1) (by rw [hs1, hs2]; exact f2)
+
+/-! ### (1f) Reset of a reachable object is an Init object (contacts: entries above the one in progress untouched) -/
+
+theorem sc_ct_setCur (c : PContacts) (pf : PFromBody) (h : TailZero c.vals {} c.n) :
+    TailZero (c.setCur pf).vals {} c.n ∧ (c.setCur pf).n = c.n := by
+  unfold PContacts.setCur
+  split
+  · exact ⟨tailZero_set _ _ _ _ h, rfl⟩
+  · exact ⟨h, rfl⟩
+
+theorem sc_ct_account (c : PContacts) (pf : PFromBody) :
+    (c.account pf).vals = c.vals ∧ (c.account pf).n = c.n + 1 := by
+  unfold PContacts.account
+  simp only
+  repeat' split
+  all_goals exact ⟨rfl, rfl⟩
+
+theorem sc_ct_contactsLoop (b : Buf) (offs : Nat) (c : PContacts) (h : TailZero c.vals {} c.n) :
+    TailZero (contactsLoop b offs c).2.2.vals {} (contactsLoop b offs c).2.2.n := by
+  induction hk : b.size - offs using Nat.strongRecOn generalizing offs c with
+  | _ k ih =>
+    rw [contactsLoop]
+    simp only
+    rcases hp : parseOneContact b offs c.cur with ⟨next, e, pf⟩
+    obtain ⟨hs1, hs2⟩ := sc_ct_setCur c pf h
+    obtain ⟨ha1, ha2⟩ := sc_ct_account (c.setCur pf) pf
+    have hacc : TailZero ((c.setCur pf).account pf).vals {} ((c.setCur pf).account pf).n := by
+      rw [ha1, ha2, hs2]; exact tailZero_mono _ _ _ _ (Nat.le_succ _) hs1
+    cases e
+    case ok => simp only; exact hacc
+    case moreValues =>
+      simp only
+      split
+      · apply ih (b.size - next) (by omega) next _ _ rfl
+        split
+        · exact hacc
+        · exact hacc
+      · simp only
+        split
+        · exact hacc
+        · exact hacc
+    case moreBytes => simp only; rw [hs2]; exact hs1
+    all_goals
+      simp only
+      split
+      · rw [hs2]; exact hs1
+      · exact h
+
+theorem sc_ct_parseAll (b : Buf) (offs : Nat) (c : PContacts) (h : TailZero c.vals {} c.n) :
+    TailZero (parseAllContactValues b offs c).2.2.vals {} (parseAllContactValues b offs c).2.2.n := by
+  unfold parseAllContactValues
+  apply sc_ct_contactsLoop
+  split <;> exact h
+
+/-- the contacts of the header values (if any) satisfy the tail invariant -/
+def ScHb (hb : Option PHdrVals) : Prop := ∀ hv, hb = some hv → TailZero hv.contacts.vals {} hv.contacts.n
+
+theorem ScHb_some {hv : PHdrVals} (h : TailZero hv.contacts.vals {} hv.contacts.n) : ScHb (some hv) := by
+  intro hv' hh; cases hh; exact h
+
+theorem sc_ct_parseBody (b : Buf) (o : Nat) (h : Hdr) (hb : Option PHdrVals) (H : ScHb hb) :
+    ScHb (parseBody b o h hb).2.2.2 := by
+  unfold parseBody
+  cases hb with
+  | none => exact H
+  | some hv =>
+  have H0 : TailZero hv.contacts.vals {} hv.contacts.n := H hv rfl
+  simp only
+  by_cases h1 : (h.type == HdrFrom) = true
+  · simp only [h1, ↓reduceIte]
+    split
+    · exact ScHb_some H0
+    · exact H
+  simp only [h1, Bool.false_eq_true, ↓reduceIte]
+  by_cases h2 : (h.type == HdrTo) = true
+  · simp only [h2, ↓reduceIte]
+    split
+    · exact ScHb_some H0
+    · exact H
+  simp only [h2, Bool.false_eq_true, ↓reduceIte]
+  by_cases h3 : (h.type == HdrCallID) = true
+  · simp only [h3, ↓reduceIte]
+    split
+    · exact ScHb_some H0
+    · exact H
+  simp only [h3, Bool.false_eq_true, ↓reduceIte]
+  by_cases h4 : (h.type == HdrCSeq) = true
+  · simp only [h4, ↓reduceIte]
+    split
+    · exact ScHb_some H0
+    · exact H
+  simp only [h4, Bool.false_eq_true, ↓reduceIte]
+  by_cases h5 : (h.type == HdrCLen) = true
+  · simp only [h5, ↓reduceIte]
+    split
+    · exact ScHb_some H0
+    · exact H
+  simp only [h5, Bool.false_eq_true, ↓reduceIte]
+  by_cases h6 : (h.type == HdrContact) = true
+  · simp only [h6, ↓reduceIte]
+    apply ScHb_some
+    apply sc_ct_parseAll
+    split <;> exact H0
+  simp only [h6, Bool.false_eq_true, ↓reduceIte]
+  by_cases h7 : (h.type == HdrExpires) = true
+  · simp only [h7, ↓reduceIte]
+    split
+    · exact ScHb_some H0
+    · exact H
+  simp only [h7, Bool.false_eq_true, ↓reduceIte]
+  by_cases h8 : (h.type == HdrPAI) = true
+  · simp only [h8, ↓reduceIte]
+    exact ScHb_some H0
+  simp only [h8, Bool.false_eq_true, ↓reduceIte]
+  exact H
+
+theorem sc_ct_hlAfterColon (b : Buf) (i : Nat) (h : Hdr) (hb : Option PHdrVals) (H : ScHb hb) :
+    ScHb (scStepSt (hlAfterColon b i h hb)).2 := by
+  unfold hlAfterColon
+  split
+  · exact H
+  · rename_i nm _
+    have hp := sc_ct_parseBody b i { h with type := getHdrType nm } hb H
+    simp only
+    split
+    · exact hp
+    · exact hp
+
+theorem sc_ct_hlName (b : Buf) (i : Nat) (h : Hdr) (hb : Option PHdrVals) (H : ScHb hb) :
+    ScHb (scStepSt (hlName b i h hb)).2 := by
+  unfold hlName
+  simp only
+  split
+  · exact H
+  · split
+    · split <;> exact H
+    · split
+      · split
+        · exact H
+        · exact sc_ct_hlAfterColon b _ _ hb H
+      · exact H
+
+theorem sc_ct_hlValEnd (b : Buf) (i : Nat) (h : Hdr) (hb : Option PHdrVals) (H : ScHb hb) :
+    ScHb (scStepSt (hlValEnd b i h hb)).2 := by
+  unfold hlValEnd
+  rcases hsk : skipLWS b i 0 with ⟨n1, crl, e⟩
+  cases e <;> simp only <;> exact H
+
+theorem sc_ct_hlCont (b : Buf) (i : Nat) (h : Hdr) (hb : Option PHdrVals) (H : ScHb hb) :
+    ScHb (scStepSt (hlCont b i h hb)).2 := by
+  unfold hlCont
+  cases hb with
+  | none => exact H
+  | some hv =>
+    have H0 : TailZero hv.contacts.vals {} hv.contacts.n := H hv rfl
+    simp only
+    cases h.state <;> simp only
+    case hContact => exact ScHb_some (sc_ct_parseAll b i hv.contacts H0)
+    all_goals first | exact ScHb_some H0 | exact H
+
+theorem sc_ct_hlStep (b : Buf) (i : Nat) (c : UInt8) (st : HLσ) (H : ScHb st.2) :
+    ScHb (scStepSt (hlStep b i c st)).2 := by
+  obtain ⟨h, hv⟩ := st
+  unfold hlStep
+  simp only
+  cases h.state <;> simp only
+  case init =>
+    split
+    · split
+      · exact H
+      · split <;> exact H
+    · split
+      · exact H
+      · exact sc_ct_hlName b i _ hv H
+  case name => exact sc_ct_hlName b i h hv H
+  case nameEnd =>
+    split
+    · exact H
+    · split
+      · exact sc_ct_hlAfterColon b _ _ hv H
+      · exact H
+  case bodyStart =>
+    rcases hsk : skipLWS b i 0 with ⟨n1, crl, e⟩
+    cases e <;> simp only <;> exact H
+  case val =>
+    split
+    · exact H
+    · exact sc_ct_hlValEnd b _ _ hv H
+  case valEnd => exact sc_ct_hlValEnd b i h hv H
+  case fin => exact H
+  all_goals exact sc_ct_hlCont b i h hv H
+
+theorem sc_ct_parseHdrLine (b : Buf) (o : Nat) (h : Hdr) (hb : Option PHdrVals) (H : ScHb hb) :
+    ScHb (parseHdrLine b o h hb).2.2.2 := by
+  have key := runLoop_inv hlMachine b (fun _ st => ScHb st.2) (fun r => ScHb r.2.2.2)
+    (by
+      intro i c st i' st' _ hP hs
+      have := sc_ct_hlStep b i c st hP
+      rw [show hlMachine.step b i c st = hlStep b i c st from rfl] at hs
+      rw [hs] at this
+      exact ⟨fun _ => this, fun _ => this⟩)
+    (by
+      intro i c st o2 e2 st2 _ hP hs
+      have := sc_ct_hlStep b i c st hP
+      rw [show hlMachine.step b i c st = hlStep b i c st from rfl] at hs
+      rw [hs] at this
+      exact this)
+    (by intro i st _ hP; exact hP)
+    o (h, hb) H
+  unfold parseHdrLine
+  rcases hrl : runLoop hlMachine b o (h, hb) with ⟨o1, e1, h1, hb1⟩
+  rw [hrl] at key
+  exact key
+
+theorem sc_ct_parseHeaders (b : Buf) (offs : Nat) (hl : HdrLst) (hb : Option PHdrVals) (H : ScHb hb) :
+    ScHb (parseHeaders b offs hl hb).2.2.2 := by
+  induction hk : b.size - offs using Nat.strongRecOn generalizing offs hl hb with
+  | _ k ih =>
+    rw [parseHeaders.eq_1 b offs hl hb]
+    by_cases hlt : offs < b.size
+    · rw [if_pos hlt]
+      have hline := sc_ct_parseHdrLine b offs hl.cur hb H
+      rcases hp1 : parseHdrLine b offs hl.cur hb with ⟨n1, e1, g1, v1⟩
+      rw [hp1] at hline
+      cases e1 <;> simp only
+      case ok =>
+        by_cases hg : offs < n1
+        · rw [if_pos hg]
+          exact ih (b.size - n1) (by omega) n1 _ v1 hline rfl
+        · rw [if_neg hg]; exact hline
+      case empty => split <;> exact hline
+      all_goals exact hline
+    · rw [if_neg hlt]; exact H
+
+/-- the message-level contacts invariant -/
+def ScCt (m : PSIPMsg) : Prop := TailZero m.pv.contacts.vals {} m.pv.contacts.n
+
+theorem sc_pv_msgErr (m : PSIPMsg) (o : Nat) (e : Err) (flags : Nat) : (msgErr m o e flags).2.2.pv = m.pv := by
+  unfold msgErr
+  split
+  · rfl
+  · split <;> rfl
+
+/-- **ParseSIPMsg preserves the contacts invariant** (any buffer, offset, flags, verdict) -/
+theorem sc_ct_parseSIPMsg (b : Buf) (o : Nat) (m : PSIPMsg) (flags : Nat) (H : ScCt m) :
+    ScCt (parseSIPMsg b o m flags).2.2 := by
+  have hH : ∀ (o : Nat) (m : PSIPMsg), ScCt m → ScCt (msgHeaders b o m flags).2.2 := by
+    intro o m H
+    unfold msgHeaders
+    have hs := sc_ct_parseHeaders b o m.hl (some m.pv) (ScHb_some H)
+    rcases hp : parseHeaders b o m.hl (some m.pv) with ⟨o1, e1, hl1, hb1⟩
+    rw [hp] at hs
+    have hpv : TailZero (hb1.getD m.pv).contacts.vals {} (hb1.getD m.pv).contacts.n := by
+      cases hb1 with
+      | none => exact H
+      | some hv => exact hs hv rfl
+    cases e1 <;> simp only
+    case ok => unfold ScCt; rw [(msgBody_done_pv b o1 _ flags).2]; exact hpv
+    all_goals (unfold ScCt; rw [sc_pv_msgErr]; exact hpv)
+  have hF : ∀ (o : Nat) (m : PSIPMsg), ScCt m → ScCt (msgFLine b o m flags).2.2 := by
+    intro o m H
+    unfold msgFLine
+    rcases hp : parseFLine b o m.fl with ⟨o1, e1, fl1⟩
+    cases e1 <;> simp only
+    case ok => exact hH o1 _ H
+    all_goals (unfold ScCt; rw [sc_pv_msgErr]; exact H)
+  unfold parseSIPMsg
+  cases hst : m.state <;> simp only
+  case init => exact hF o _ H
+  case fline => exact hF o m H
+  case headers => exact hH o m H
+  case body => unfold ScCt; rw [(msgBody_done_pv b o m flags).2]; exact H
+  all_goals (unfold ScCt; rw [sc_pv_msgErr]; exact H)
+
+theorem sc_map_const (a : Array Hdr) : a.map (fun _ => ({} : Hdr)) = Array.replicate a.size {} := by
+  apply Array.ext
+  · simp
+  · intro i h1 h2; simp
+
+/-- **Reset of an object that satisfies the contacts invariant is an Init object** with the same capacities -/
+theorem sc_reset_eq_init (m : PSIPMsg) (H : ScCt m) :
+    m.reset = ({} : PSIPMsg).init m.bufLen ((some ()).map fun _ => Array.replicate m.hl.hdrs.size {})
+      ((some ()).map fun _ => Array.replicate m.pv.contacts.vals.size {}) := by
+  have h1 : m.hl.reset.hdrs = Array.replicate m.hl.hdrs.size {} := sc_map_const m.hl.hdrs
+  have h2 : m.pv.reset.contacts.vals = Array.replicate m.pv.contacts.vals.size {} :=
+    clearUpToP_of_tailZero m.pv.contacts.vals {} m.pv.contacts.n H
+  unfold PSIPMsg.reset
+  rw [h1, h2]
+  rfl
+
+/-! ### (1g) any history -/
+
+/-- the life of a message object: the zero value or Init (of anything, with cleared caller arrays or none), then any
+    sequence of Reset and ParseSIPMsg calls — any buffer, offset and flags, whatever the verdict (complete,
+    suspended, failed, called again after an error, on unrelated buffers, …) -/
+inductive ScReach : PSIPMsg → Prop
+  | new : ScReach {}
+  | init (m0 : PSIPMsg) (len kh kc : Nat) (hdrs cts : Option Unit) :
+      ScReach (m0.init len (hdrs.map fun _ => Array.replicate kh {}) (cts.map fun _ => Array.replicate kc {}))
+  | reset {m : PSIPMsg} : ScReach m → ScReach m.reset
+  | parse {m : PSIPMsg} (b : Buf) (o flags : Nat) : ScReach m → ScReach (parseSIPMsg b o m flags).2.2
+
+theorem ScCt_init (m0 : PSIPMsg) (len kh kc : Nat) (hdrs cts : Option Unit) :
+    ScCt (m0.init len (hdrs.map fun _ => Array.replicate kh {}) (cts.map fun _ => Array.replicate kc {})) := by
+  cases cts with
+  | none => exact tailZero_new ({} : PFromBody) 10 0
+  | some _ => exact tailZero_new ({} : PFromBody) kc 0
+
+/-- **both invariants hold at every point of every history** -/
+theorem ScReach.inv {m : PSIPMsg} (h : ScReach m) : ScMsg m ∧ ScCt m := by
+  induction h with
+  | new =>
+    refine ⟨ScMsg_of_tail (ScTail_new 0) ⟨(fun hh => by cases hh), (fun hh => by cases hh)⟩, ?_⟩
+    intro k _ hk
+    exact absurd hk (Nat.not_lt_zero _)
+  | init m0 len kh kc hdrs cts => exact ⟨ScMsg_init m0 len kh kc hdrs cts, ScCt_init m0 len kh kc hdrs cts⟩
+  | @reset m _ ih =>
+    refine ⟨ScMsg_reset m, ?_⟩
+    rw [sc_reset_eq_init m ih.2]
+    exact ScCt_init _ _ _ _ _ _
+  | parse b o flags _ ih => exact ⟨(sc_parseSIPMsg b o _ flags ih.1).1, sc_ct_parseSIPMsg b o _ flags ih.2⟩
+
+/-- **after ANY history** that left the object legitimate for the next call (`msgOK2`, `MsgSafe`: a resumed call on
+    an extension of the same buffer; for the first call after Init / Reset they hold, see below), a successful
+    ParseSIPMsg is followed by a panic-free GetMsgSig -/
+theorem sc_getMsgSig_safe_history (b : Buf) (o : Nat) (m : PSIPMsg) (flags : Nat) (hfit : b.size ≤ 65535)
+    (hR : ScReach m) (hok : msgOK2 b o m) (H : MsgSafe b o m) {o' : Nat} {m' : PSIPMsg}
+    (hr : parseSIPMsg b o m flags = (o', .ok, m')) : (getMsgSig m' b).2.2 = false :=
+  sc_getMsgSig_safe b o m flags hfit hR.inv.1 hok H hr
+
+/-- **Reset after any history gives an Init object** (so every theorem stated "from Init" applies after Reset) … -/
+theorem sc_reset_after_history {m : PSIPMsg} (hR : ScReach m) :
+    m.reset = ({} : PSIPMsg).init m.bufLen ((some ()).map fun _ => Array.replicate m.hl.hdrs.size {})
+      ((some ()).map fun _ => Array.replicate m.pv.contacts.vals.size {}) :=
+  sc_reset_eq_init m hR.inv.2
+
+/-- … in particular it is legitimate for a first call at any offset inside any buffer -/
+theorem sc_reset_legit {m : PSIPMsg} (hR : ScReach m) (b : Buf) (o : Nat) (ho : o ≤ b.size) :
+    msgOK2 b o m.reset ∧ MsgSafe b o m.reset := by
+  rw [sc_reset_after_history hR]
+  exact ⟨msgOK2_init b o ho _ _ _ _ _ _, MsgSafe_init b o ho _ _ _ _ _ _⟩
+
+/-- **any history, then Reset, then one successful call**: GetMsgSig does not panic (no legitimacy hypothesis left) -/
+theorem sc_getMsgSig_safe_reset {m : PSIPMsg} (hR : ScReach m) (b : Buf) (o : Nat) (ho : o ≤ b.size) (flags : Nat)
+    (hfit : b.size ≤ 65535) {o' : Nat} {m' : PSIPMsg} (hr : parseSIPMsg b o m.reset flags = (o', .ok, m')) :
+    (getMsgSig m' b).2.2 = false :=
+  sc_getMsgSig_safe b o m.reset flags hfit (ScMsg_reset m) (sc_reset_legit hR b o ho).1 (sc_reset_legit hR b o ho).2 hr
+
+/-- **any history, then Reset, then any chunk schedule that ends with OK**: as `sc_getMsgSig_safe_schedule` -/
+theorem sc_getMsgSig_safe_reset_schedule {m : PSIPMsg} (hR : ScReach m) (flags : Nat) (o : Nat)
+    (l : List Buf) (hg : Growing l) (hfit : ∀ x ∈ l, x.size ≤ 65535) (hne : l ≠ []) (ho : ∀ b ∈ l, o ≤ b.size)
+    {o' : Nat} {m' : PSIPMsg} (hr : resumeRun (C01.msgP flags) o m.reset l = (o', .ok, m')) :
+    ∃ b ∈ l, parseSIPMsg b o m.reset flags = (o', .ok, m') ∧ m'.bufLen ≤ b.size ∧
+      ∀ s, (getMsgSig m' (b ++ s)).2.2 = false := by
+  rw [sc_reset_after_history hR] at hr ⊢
+  exact sc_getMsgSig_safe_schedule flags o _ _ _ _ _ _ l hg hfit hne ho hr
+
+end Sipsp
+
+namespace Sipsp
+
+/-! ### tests / non-vacuity (closed computations by `decide +kernel`; these are examples, not the general claims) -/
+
+/-- test message: INVITE with Via, Subject, compact From, To, Call-ID, CSeq, a second Via, Content-Length (8 headers) -/
+def scTestMsg : Buf := "INVITE sip:a@b SIP/2.0\r\nVia: SIP/2.0/UDP h;branch=z9hG4bK-a.b\r\nSubject: x\r\nf: <sip:a@b>;tag=a-1\r\nTo: <sip:c@d>\r\nCall-ID: x@1.2.3.4\r\nCSeq: 1 INVITE\r\nVia: SIP/2.0/UDP h2\r\nContent-Length: 0\r\n\r\n".toUTF8.data
+
+/-- the object after Init with a header array of `k` entries (written as the theorems write it) -/
+def scTestInit (k : Nat) : PSIPMsg :=
+  ({} : PSIPMsg).init 0 ((some ()).map fun _ => Array.replicate k {}) ((none : Option Unit).map fun _ => Array.replicate 0 {})
+
+theorem scTest_fit : scTestMsg.size ≤ 65535 := by decide +kernel
+
+/-- test (1): the one-shot parse succeeds, so the hypotheses of `sc_getMsgSig_safe_init` are satisfiable … -/
+theorem scTest_ok : (parseSIPMsg scTestMsg 0 (scTestInit 12) 0).2.1 = .ok := by decide +kernel
+
+/-- … and its use -/
+example : (getMsgSig (parseSIPMsg scTestMsg 0 (scTestInit 12) 0).2.2 scTestMsg).2.2 = false := by
+  have he := scTest_ok
+  generalize hp : parseSIPMsg scTestMsg 0 (scTestInit 12) 0 = r at he ⊢
+  obtain ⟨o', e, m'⟩ := r
+  simp only at he
+  subst he
+  exact sc_getMsgSig_safe_init scTestMsg 0 (Nat.zero_le _) {} 0 12 0 (some ()) none 0 scTest_fit hp
+
+/-- test (1): the unfilled slots of the 12-entry array after the parse (`ScDone`, computed) -/
+example : (parseSIPMsg scTestMsg 0 (scTestInit 12) 0).2.2.hl.n = 8 ∧
+    ((parseSIPMsg scTestMsg 0 (scTestInit 12) 0).2.2.hl.hdrs.toList.drop 8).map (·.type) = [0, 0, 0, 0] := by
+  decide +kernel
+
+/-- test (2): the message cut after 40 and after 100 bytes; the hypotheses of `sc_sig_chunking_whole` hold -/
+def scTestCuts : List Buf := [scTestMsg.extract 0 40, scTestMsg.extract 0 100, scTestMsg]
+
+theorem scTestCuts_growing : Growing scTestCuts :=
+  ⟨⟨scTestMsg.extract 40 100, by decide +kernel⟩, ⟨scTestMsg.extract 100 scTestMsg.size, by decide +kernel⟩, trivial⟩
+
+theorem scTestCuts_fit : ∀ x ∈ scTestCuts, x.size ≤ 65535 := by decide +kernel
+
+theorem scTestCuts_pre : ∀ x ∈ scTestCuts.dropLast, (parseSIPMsg x 0 (scTestInit 12) 0).2.1 = .moreBytes := by
+  decide +kernel
+
+theorem scTestCuts_ne : scTestCuts ≠ [] := List.cons_ne_nil _ _
+
+theorem scTestCuts_getLast : scTestCuts.getLast scTestCuts_ne = scTestMsg := by
+  simp [scTestCuts]
+
+theorem scTestCuts_last : (parseSIPMsg (scTestCuts.getLast scTestCuts_ne) 0 (scTestInit 12) 0).2.1 = .ok := by
+  rw [scTestCuts_getLast]; exact scTest_ok
+
+/-- test (2): the chain of three resumed calls returns the result of the one call on the whole message -/
+example : resumeRun (C01.msgP 0) 0 (scTestInit 12) scTestCuts = parseSIPMsg scTestMsg 0 (scTestInit 12) 0 := by
+  have hpre := scTestCuts_pre
+  have hlast := scTestCuts_last
+  unfold scTestInit at hpre hlast ⊢
+  have h := (sc_sig_chunking_whole 0 0 {} 0 12 0 (some ()) none scTestCuts scTestCuts_growing scTestCuts_fit
+    scTestCuts_ne (by intro b hb; exact Nat.zero_le _) hpre hlast).1
+  rw [scTestCuts_getLast] at h
+  exact h
+
+/-- test (2): the signature of the chunked parse, computed -/
+example : getMsgSig (resumeRun (C01.msgP 0) 0 (scTestInit 12) scTestCuts).2.2 scTestMsg =
+    ({ method := 2, cidSLen := 1, cidSig := 10, fromSig := 64, viaBSig := 80, hdrSig := [6, 11, 5, 0, 2] },
+     .ok, false) := by decide +kernel
+
+/-- test (3a): capacities 8 (exactly the header count) and 12: the same result -/
+example : (parseSIPMsg scTestMsg 0 (scTestInit 8) 0).2.2.hl.n = 8 ∧
+    getMsgSig (parseSIPMsg scTestMsg 0 (scTestInit 8) 0).2.2 scTestMsg =
+      getMsgSig (parseSIPMsg scTestMsg 0 (scTestInit 12) 0).2.2 scTestMsg := by decide +kernel
+
+/-- test (3b): capacity 3: truncated indication, with the entries of the stored part -/
+example : getMsgSig (parseSIPMsg scTestMsg 0 (scTestInit 3) 0).2.2 scTestMsg =
+    ({ method := 2, cidSLen := 1, cidSig := 10, fromSig := 64, viaBSig := 80, hdrSig := [6, 11] }, .trunc, false) := by
+  decide +kernel
+
+/-- test (3): the hypotheses of `sc_sig_capacity` for capacity 3 against capacity 12 on the one-chunk schedule -/
+example : (resumeRun (fun b o m => parseSIPMsg b o m 0) 0 (scTestInit 3) [scTestMsg]).2.1 = .ok ∧
+    scCap 3 (some ()) < (resumeRun (fun b o m => parseSIPMsg b o m 0) 0 (scTestInit 3) [scTestMsg]).2.2.hl.n ∧
+    scCap 3 (some ()) ≤ scCap 12 (some ()) := by decide +kernel
 
 end Sipsp
